@@ -1,0 +1,15 @@
+use crate::entity::Identifier;
+
+impl Identifier {
+    /// `(index, generation)` of this identifier (verification hook).
+    #[must_use]
+    pub fn verif_parts(&self) -> (usize, u64) {
+        (self.index, self.generation)
+    }
+
+    /// Build an identifier from raw parts (verification hook).
+    #[must_use]
+    pub fn verif_from_parts(index: usize, generation: u64) -> Self {
+        Self::new(index, generation)
+    }
+}
